@@ -41,7 +41,8 @@ impl Suite for Api {
             let mut tables = vec![];
             while tables.len() < 2 {
                 let t = gen_table_name(&mut r);
-                if queryable(&t) && t.len() < 200 && !tables.contains(&t) {
+                // the engine appends its own rows to `_meta_tables` / `_meta_columns_*`: not user tables
+                if queryable(&t) && t.len() < 200 && !tables.contains(&t) && !t.to_lowercase().starts_with("_meta_") {
                     if tables.len() == 1 && r.chance(1, 2) {
                         let base: &String = &tables[0];
                         let variant = match r.below(3) {
